@@ -54,7 +54,7 @@ RULE = ('full Cartesian product of box lower-left position (every integer positi
         'takes).  One state = one (position, box shape, image shape); a state is non-trivial when the box '
         'straddles at least one image edge (partial overlap or box covering the image)')
 BOUNDS = {
-    'quick': 'box shapes 1x1,2x3,3x2,8x8,0x2,2x0; image shapes 5x6,1x1,3x4,6x2; weights ones/checker/antichecker/'
+    'quick': 'box shapes 1x1,2x3,3x2,8x8,0x2,2x0; image shapes 5x6,1x1,3x4,6x2; weights ones/checker/antichecker/tiny (2^-40, 2^-30, 2^-27)/'
              'dyadic fractions with zeros; dtypes int64,uint16,float64,Quantity[Jy]; layouts C and strided view of a '
              'larger buffer; fills 0,7,NaN,+inf; copy False/True; user mask None/all False/checker/all True',
     'thorough': 'quick plus box shapes 1x4,4x1,5x5,10x7,0x0; image shapes 1x5,7x1,2x2,4x4,0x3,3x0; non-dyadic '
@@ -73,7 +73,7 @@ UNIT = 'Jy'
 _Q = dict(
     boxes=[(1, 1), (2, 3), (3, 2), (8, 8), (0, 2), (2, 0)],
     images=[(5, 6), (1, 1), (3, 4), (6, 2)],
-    weights=['ones', 'checker', 'antichecker', 'frac'],
+    weights=['ones', 'checker', 'antichecker', 'frac', 'tiny'],
     dtypes=['int64', 'float64', 'quantity', 'uint16'],
     layouts=['C', 'view'],
     fills=['0', '7', 'nan', 'inf'],
@@ -139,6 +139,8 @@ def _weight(wname, j, i):
         return Fraction(0 if (i + j) % 2 == 0 else 1)
     if wname == 'frac':      # k/8, k in 0..8: exact zeros, exact one, everything dyadic
         return Fraction((3 * j + 5 * i + 1) % 9, 8)
+    if wname == 'tiny':      # strictly positive weights far below any tolerance (a pixel the shape barely grazes), zeros and ones
+        return [Fraction(0), Fraction(1, 2 ** 40), Fraction(1), Fraction(1, 2 ** 30), Fraction(1, 2 ** 27)][(2 * j + 3 * i + 1) % 5]
     if wname == 'nondyadic':  # the float nearest to 0, .3, .6, .9 (reference uses that float exactly)
         return Fraction([0.0, 0.3, 0.6, 0.9][(2 * j + 3 * i + 1) % 4])
     raise ValueError(wname)
